@@ -14,35 +14,12 @@ Proof. intros H E. subst. rewrite veqb_refl in H. discriminate. Qed.
 
 Definition I2 : list (list Qc) := [[q 1 1; q 0 1]; [q 0 1; q 1 1]].
 
-(* dense field of a linear transform on a grid with ANOTHER domain: affine_flow applies the matrix, which is
-   defined in the own grid's cube coordinates, to the other grid's cube coordinates.  Translation by 1/2 cube
-   units of an 8 x 6 grid = 2 world units; on the 16 x 6 grid of the same spacing the field should be 1/4. *)
-Definition g_own := qgrid [q 8 1; q 6 1] [q 1 1; q 2 1] [q 3 1; q (-1) 1] I2.
-Definition g_other := qgrid [q 16 1; q 6 1] [q 1 1; q 2 1] [q 3 1; q (-1) 1] I2.
-Definition tr_half : list (list Qc) := [[q 1 2]; [q 0 1]].
-Lemma disp_other_grid_refuted :
-  exists (M : list (list Qc)) (g h : gridf (K:=QcF)) (x : list Qc),
-    view_disp (K:=QcF) 2 FT M x <> field_of_world_map (K:=QcF) 2 (world_map (K:=QcF) 2 FT M false g) false h x /\
-    view_disp (K:=QcF) 2 FT M x = [q 1 2; q 0 1] /\
-    field_of_world_map (K:=QcF) 2 (world_map (K:=QcF) 2 FT M false g) false h x = [q 1 4; q 0 1].
-Proof.
-  exists tr_half, g_own, g_other, [q 0 1; q 0 1]. split; [|split].
-  - apply veqb_neq. vm_compute. reflexivity.
-  - apply veqb_eq. vm_compute. reflexivity.
-  - apply veqb_eq. vm_compute. reflexivity.
-Qed.
-(* the same grid with the other align_corners flag is enough *)
-Lemma disp_other_flag_refuted :
-  view_disp (K:=QcF) 2 FT tr_half [q 0 1; q 0 1]
-  <> field_of_world_map (K:=QcF) 2 (world_map (K:=QcF) 2 FT tr_half false g_own) true g_own [q 0 1; q 0 1].
-Proof. apply veqb_neq. vm_compute. reflexivity. Qed.
-
-(* ImageTransformer hands the pre-mapped target points to transform(..., grid=True): for a non-rigid
-   transform the field is then RESIZED to the target's size instead of being interpolated at those points.
-   Field u = (0, 1, 2, 3) / 8 on a 4-sample grid; a 2-sample target covering only part of the domain, whose
-   points have transform-cube coordinates 0 and 1/3 *)
+(* resizing a field to a lattice is NOT interpolating it at points that are not that lattice: this is why ImageTransformer may
+   tell the transform that its points are the undeformed lattice only when the target covers the transform's domain.
+   Field u = (0, 1, 2, 3) / 8 on a 4-sample grid; a 2-sample target covering part of the domain, whose points have
+   transform-cube coordinates 0 and 1/3 *)
 Definition u_w : list Qc := [q 0 1; q 1 8; q 2 8; q 3 8].
 Definition xs_w : list Qc := [q 0 1; q 1 3].
-Lemma warp_other_domain_refuted :
+Lemma resize_differs_off_lattice :
   warp_grid1 (K:=QcF) floorQ true u_w xs_w <> map (warp_points1 (K:=QcF) floorQ true u_w) xs_w.
 Proof. apply veqb_neq. vm_compute. reflexivity. Qed.
